@@ -30,7 +30,7 @@ PROPS['C02'] = dict(
     props_file='Props/C02.v',
     kernels=['cs_has_available_charger', 'cs_increment_available', 'cs_decrement_available', 'cs_increment_enqueued', 'cs_decrement_enqueued', 'cs_add_chargers',
              'base_has_available_stall', 'base_checkout_stall', 'base_return_stall'],
-    step_runs={Q: GEN + [('contention', 80, 40), ('plugs', 80, 40)], T: [('generic', 1500, 40), ('contention', 1500, 60), ('plugs', 1500, 60)]},
+    step_runs={Q: GEN + [('contention', 80, 40), ('plugs', 80, 40), ('queue', 60, 40)], T: [('generic', 1500, 40), ('contention', 1500, 60), ('plugs', 1500, 60), ('queue', 1500, 80)]},
     known_keys={},
 )
 PROPS['C03'] = dict(
@@ -48,7 +48,7 @@ PROPS['C05'] = dict(
 )
 PROPS['C07'] = dict(
     props_file='Props/C07.v', kernels=[],
-    step_runs={Q: GEN + [('contention', 80, 40), ('routes', 80, 30)], T: [('generic', 1500, 40), ('contention', 800, 60), ('requests', 800, 60), ('routes', 1500, 40)]},
+    step_runs={Q: GEN + [('contention', 80, 40), ('routes', 80, 30), ('rawmix', 60, 30)], T: [('generic', 1500, 40), ('contention', 800, 60), ('requests', 800, 60), ('routes', 1500, 40), ('rawmix', 800, 40)]},
     known_keys={'base_activity_away_from_base': ['activity'], 'station_activity_away_from_station': ['activity']},
 )
 PROPS['C09'] = dict(
@@ -158,6 +158,9 @@ PROPS['C15'].update(engines=[eng_c15.engine], extended=[eng_c15.engine], replaye
 
 import eng_c19
 import eng_reports
+PROPS['C05'].setdefault('engines', []).append(eng_c19.engine_c05)
+PROPS['C05'].setdefault('extended', []).append(eng_c19.engine_c05)
+PROPS['C05'].setdefault('replayers', []).append(eng_c19.replayer)
 PROPS['C19'].update(engines=[eng_c19.engine, eng_reports.engine], extended=[eng_c19.engine, eng_reports.engine], replayers=[eng_c19.replayer, eng_reports.replayer])
 
 import eng_c20
@@ -173,6 +176,10 @@ PROPS['C17'].setdefault('extended', []).append(eng_c20.engine_c17)
 PROPS['C17'].setdefault('replayers', []).append(eng_c20.replayer_c17)
 
 # direct translator validation (kernel evaluated in Coq vs the real function on boundary-biased inputs)
+import eng_pool
+PROPS['C10'].setdefault('engines', []).append(eng_pool.engine)
+PROPS['C10'].setdefault('extended', []).append(eng_pool.engine)
+PROPS['C10'].setdefault('replayers', []).append(eng_pool.replayer)
 import eng_kernels
 for _p in ('C02', 'C06', 'C10', 'C20'):
     PROPS[_p].setdefault('engines', []).append(eng_kernels.make_engine(_p))
